@@ -1406,7 +1406,9 @@ class Interp:
             ci = self.class_by_fq(a.args[0])
             out.append((self.prog.lookup_method(ci, "__init__"), None, "construct", ci))
         elif a.op == "closure":
-            clo = self.closures[a.args[0]]
+            clo = self.closures.get(a.args[0])
+            if clo is None:
+                return  # a closure created in another activation (e.g. a lambda the constructor stored in a field): opaque here
             out.append((clo.fi, None, "call", clo))
         elif a.op == "attr":
             base, name = a.args
